@@ -154,6 +154,9 @@ type Ref struct {
 	NeededUses int
 	FieldReads int
 	Invalid    string // non-empty: the declaration is ambiguous/unsatisfiable by the documented rules
+	// ChanProducer is filled by the harness from one fault-free run of the generated injector: which
+	// provider's completion each done-channel announces (used only to describe leaks more precisely).
+	ChanProducer map[string]string `json:"-"`
 }
 
 type RefCall struct {
